@@ -394,6 +394,16 @@ func (vc *FnVC) applyContract(st *State, u *Unit, callee *ssa.Function, pkg *typ
 		vc.assume(st, t)
 	}
 	vc.G.noteUse(vc, u, calleeKey)
+	if instr != nil && u.Trusted && u.Opts["allocates"] && ret != nil && ret.S != "" {
+		if _, isP := ret.T.Underlying().(*types.Pointer); isP && vc.ownedValue(instr) {
+			for _, e := range u.Ensures {
+				if strings.Contains(e.Text, "fresh(result)") {
+					vc.owned = append(vc.owned, ret.S)
+					break
+				}
+			}
+		}
+	}
 	return ret
 }
 
